@@ -18,7 +18,7 @@ Print Assumptions C17_mode_gate.
    the connection rejects the segment - it is never delivered to a local responder -
    with the from-initiator error, or (when the peer alone claimed duplex, so that the
    muxer mode is both-ways) the unknown-protocol error. *)
-Theorem C17_initiator_only : forall c n raw,
+Theorem C17_initiator_only_cfg : forall c n raw,
   role_enabled c (n_peer_duplex n) Responder = false -> is_response raw = false ->
   exists st, accept_seg c n raw = inl st /\
              (st = StFromInitiator \/ st = StUnknown (get_pid raw)).
@@ -29,9 +29,9 @@ Proof.
   unfold accept_seg, accept_seg_f. rewrite (request_rejected _ _ _ Hr H).
   eexists. split; [reflexivity|]. destruct (_ =? dm_initiator); auto.
 Qed.
-Print Assumptions C17_initiator_only.
+Print Assumptions C17_initiator_only_cfg.
 
-Theorem C17_responder_only : forall c n raw,
+Theorem C17_responder_only_cfg : forall c n raw,
   role_enabled c (n_peer_duplex n) Initiator = false -> is_response raw = true ->
   exists st, accept_seg c n raw = inl st /\
              (st = StFromResponder \/ st = StUnknown (get_pid raw)).
@@ -42,10 +42,10 @@ Proof.
   unfold accept_seg, accept_seg_f. rewrite (response_rejected _ _ _ Hr H).
   eexists. split; [reflexivity|]. destruct (_ =? dm_responder); auto.
 Qed.
-Print Assumptions C17_responder_only.
+Print Assumptions C17_responder_only_cfg.
 
 (* The muxer mode is never stricter than the enabled roles, and some role is enabled. *)
-Theorem C17_mode_consistent : forall c n,
+Theorem C17_mode_consistent_cfg : forall c n,
   (mux_mode c n = dm_initiator -> role_enabled c (n_peer_duplex n) Responder = false) /\
   (mux_mode c n = dm_responder -> role_enabled c (n_peer_duplex n) Initiator = false) /\
   (role_enabled c (n_peer_duplex n) Initiator = true \/ role_enabled c (n_peer_duplex n) Responder = true).
@@ -57,14 +57,14 @@ Proof.
   - intros E. rewrite E, N.eqb_refl in H2. cbn [negb orb] in H2. now apply negb_true_iff in H2.
   - apply orb_true_iff in H3. exact H3.
 Qed.
-Print Assumptions C17_mode_consistent.
+Print Assumptions C17_mode_consistent_cfg.
 
 (* Started = specification, for every configuration and every version of the
    connection's own family (the lists the code advertises): protocol p runs in
    role r exactly when starting is not delayed, the network-spec table has p on this
    kind of connection from this version on, the role is enabled by (server, duplex
    agreed by both), and - for the keep-alive client - keep-alives were requested. *)
-Theorem C17_started : forall c n, In (n_version n) (family (knd c)) ->
+Theorem C17_started_cfg : forall c n, In (n_version n) (family (knd c)) ->
   forall p r, In (p, r) (started c n) <->
     (delay_start c = false /\ spec_enabled (knd c) (n_version n) p = true /\
      role_enabled c (n_peer_duplex n) r = true /\
@@ -76,17 +76,17 @@ Proof.
   - intros (H1 & H2 & H3 & H4). repeat split; auto.
     destruct (N.eqb_spec p 8) as [->|]; [|auto]. destruct r; cbn; [right; auto | left; right; reflexivity].
 Qed.
-Print Assumptions C17_started.
+Print Assumptions C17_started_cfg.
 
 (* For EVERY negotiated version number, nothing is started in a role that is not enabled. *)
-Theorem C17_started_roles : forall c n p r, In (p, r) (started c n) ->
+Theorem C17_started_roles_cfg : forall c n p r, In (p, r) (started c n) ->
   role_enabled c (n_peer_duplex n) r = true.
 Proof.
   intros c n p r Hin. pose proof (chk_roles_all c (n_peer_duplex n) (flags_of n)) as H.
   unfold chk_roles in H. apply andb_true_iff in H. destruct H as [_ H].
   rewrite forallb_forall in H. exact (H _ Hin).
 Qed.
-Print Assumptions C17_started_roles.
+Print Assumptions C17_started_roles_cfg.
 
 (* Reachable: every started protocol instance has its receiver registered before the
    muxer starts and the muxer mode lets its counterpart's segments through: such a
@@ -113,6 +113,72 @@ Proof.
   apply route_seg_ok in H. destruct H as [H _]. cbn [snd] in H. rewrite <- H. destruct r; discriminate.
 Qed.
 Print Assumptions C17_reachable_after_sibling_stop.
+
+(* ================= the same, judged against the WIRE =================
+   own  = the diffusion mode this end advertised for the accepted version (true =
+          InitiatorAndResponder), which must be what the code puts on the wire
+          (advertised c v: generated from GetProtocolVersionMap);
+   peer = the mode in the peer's version data.  The negotiated outcome is duplex only
+   if BOTH said InitiatorAndResponder (role_enabled_w).  Stated for the versions of the
+   connection's own family (a version outside it was never proposed: C19). *)
+Theorem C17_initiator_only : forall c n own raw,
+  In (n_version n) (family (knd c)) -> own = advertised c (n_version n) ->
+  role_enabled_w c own (n_peer_duplex n) Responder = false -> is_response raw = false ->
+  exists st, accept_seg c n raw = inl st /\
+             (st = StFromInitiator \/ st = StUnknown (get_pid raw)).
+Proof.
+  intros c n own raw Hv Ho H. rewrite (role_enabled_wire c _ own _ _ Hv Ho) in H.
+  now apply C17_initiator_only_cfg.
+Qed.
+Print Assumptions C17_initiator_only.
+
+Theorem C17_responder_only : forall c n own raw,
+  In (n_version n) (family (knd c)) -> own = advertised c (n_version n) ->
+  role_enabled_w c own (n_peer_duplex n) Initiator = false -> is_response raw = true ->
+  exists st, accept_seg c n raw = inl st /\
+             (st = StFromResponder \/ st = StUnknown (get_pid raw)).
+Proof.
+  intros c n own raw Hv Ho H. rewrite (role_enabled_wire c _ own _ _ Hv Ho) in H.
+  now apply C17_responder_only_cfg.
+Qed.
+Print Assumptions C17_responder_only.
+
+Theorem C17_mode_consistent : forall c n own,
+  In (n_version n) (family (knd c)) -> own = advertised c (n_version n) ->
+  (mux_mode c n = dm_initiator -> role_enabled_w c own (n_peer_duplex n) Responder = false) /\
+  (mux_mode c n = dm_responder -> role_enabled_w c own (n_peer_duplex n) Initiator = false) /\
+  (role_enabled_w c own (n_peer_duplex n) Initiator = true \/
+   role_enabled_w c own (n_peer_duplex n) Responder = true).
+Proof.
+  intros c n own Hv Ho. rewrite !(role_enabled_wire c _ own _ _ Hv Ho). apply C17_mode_consistent_cfg.
+Qed.
+Print Assumptions C17_mode_consistent.
+
+Theorem C17_started : forall c n own, In (n_version n) (family (knd c)) ->
+  own = advertised c (n_version n) ->
+  forall p r, In (p, r) (started c n) <->
+    (delay_start c = false /\ spec_enabled (knd c) (n_version n) p = true /\
+     role_enabled_w c own (n_peer_duplex n) r = true /\
+     (p = 8 -> r = Initiator -> keepalives c = true)).
+Proof.
+  intros c n own Hv Ho p r. rewrite (role_enabled_wire c _ own _ _ Hv Ho). now apply C17_started_cfg.
+Qed.
+Print Assumptions C17_started.
+
+Theorem C17_started_roles : forall c n own p r,
+  In (n_version n) (family (knd c)) -> own = advertised c (n_version n) ->
+  In (p, r) (started c n) -> role_enabled_w c own (n_peer_duplex n) r = true.
+Proof.
+  intros c n own p r Hv Ho Hin. rewrite (role_enabled_wire c _ own _ _ Hv Ho).
+  eapply C17_started_roles_cfg; eauto.
+Qed.
+Print Assumptions C17_started_roles.
+
+(* this end advertises, for every version of its family, exactly its full-duplex option *)
+Theorem C17_advertised : forall c v, In v (family (knd c)) ->
+  advertised c v = match knd c with NtN => full_duplex c | _ => false end.
+Proof. exact advertised_family. Qed.
+Print Assumptions C17_advertised.
 
 (* ---- non-vacuity ---- *)
 (* a node-to-node client that asked for duplex, told "duplex" by the server at v13: both roles of peer-sharing run *)
